@@ -459,7 +459,13 @@ func c12UnixMilli(p *Prog, r *Report) {
 				return
 			}
 			f := call.Call.StaticCallee()
-			if f == nil || fnPkgPath(f) != "time" || !(fnShort(f) == "Time.UnixMilli" || fnShort(f) == "Time.UnixMicro" || fnShort(f) == "Time.UnixNano") {
+			if f == nil {
+				return
+			}
+			// the unchecked constructor is for callers outside the package; inside it, handing it a timestamp is the
+			// same conversion and needs the same test
+			laundered := allow[fnQual(f)] != "" && len(call.Call.Args) == 1
+			if !laundered && (fnPkgPath(f) != "time" || !(fnShort(f) == "Time.UnixMilli" || fnShort(f) == "Time.UnixMicro" || fnShort(f) == "Time.UnixNano")) {
 				return
 			}
 			n++
